@@ -12,6 +12,11 @@
   `add`, `isExit`, `addChecked`, `ccPushChecked`, `handleTxs _ false` model the code BEFORE those commits
   and are kept for the regression theorems (`*_refuted`).
 
+  The receive-loop functions take arbitrary `Blk`s (height, hash, parent hash): nothing in them assumes one block
+  per height.  `LemoProofs.C20` proves convergence over ONE linear segment (`seg base k`), `LemoProofs/C20Tree.lean`
+  over any block TREE (competing blocks at the same height); the driver ops `blocks …` / `fblocks h:hash:parent …`
+  feed the same functions.
+
   Go facts the model makes explicit
   * `BlockCache.cache` is a `[]*blocksSameHeight`: slice entries are POINTERS.  A pointer
     is a `gid`; two entries with the same `gid` are the same Go object (same `Blocks` map).
